@@ -84,6 +84,9 @@ def c01_offenders(table):
                         f"({KNAME.get(res[1], res[1])}) although it is not a named unwrapper / pointer null test", r))
         if name in CMP and any(o[0] in (W["tvol"], W["bhint"], W["ihint"]) for o in ops) and res[0] != W["bhint"]:
             out.append(("C01_hint", f"comparison `{name}` involving sandbox-resident data/hint yields {WNAME[res[0]]}, not a hint", r))
+        if any(o[0] in (W["bhint"], W["ihint"]) for o in ops) and res[0] not in (W["bhint"], W["ihint"], W["void"], W["ptrwrap"]) \
+                and name not in ("m_unverified", "m_safe_because", "m_internal"):
+            out.append(("C01_hint_sticky", f"`{name}` with a hint operand compiles and yields {WNAME[res[0]]}: the hint is laundered into a value a verifier accepts", r))
         if name == "memcmp_hint" and res[0] != W["ihint"]:
             out.append(("C01_memcmp_hint", f"rlbox::memcmp over sandbox memory yields {WNAME[res[0]]}, not an int hint", r))
         if name in CAV and any(o[0] in (W["bhint"], W["ihint"]) for o in ops):
